@@ -11,7 +11,8 @@ EXPLANATION = (
     "(R3) the object-index arm of find is guarded by config.index_objects and triples_with_object falls back to a scan; "
     "(R4) find_with_pending removes pending deletes and adds a pending insert only under a membership test against the "
     "result so far (set semantics); (R5) TriplePattern::matches rejects exactly when a bound component differs from the "
-    "triple's component of the same name. SPARQL algebra is not decided.")
+    "triple's component of the same name. (R6) DELETE/INSERT WHERE applies every delete before any insert; (R7) the retain predicates of RdfStore::remove drop an index entry only where it equals the removed triple. "
+    "SPARQL algebra is not decided.")
 ASSUMPTIONS = ["Triple::{subject,predicate,object} and TriplePattern.{subject,predicate,object} name the components consistently"]
 
 R = common.RDF
